@@ -65,7 +65,7 @@ func PlanValuesV2(script *traceql_parser.TraceQLScript, key string) (shared.Gene
 	return &TraceQLComplexityEvaluator[string]{
 		initSqlPlanner:            res,
 		simpleRequestProcessor:    &SimpleTagsV2RequestProcessor{},
-		complexRequestProcessor:   &ComplexValuesV2RequestProcessor{},
+		complexRequestProcessor:   &ComplexValuesV2RequestProcessor{allValuesV2RequestProcessor{key: key}},
 		evaluateComplexityPlanner: complexityPlanner,
 	}, nil
 }
